@@ -190,6 +190,102 @@ static void buffer_case(const BufCase &c, pbt::Ctx &ctx)
     ctx.label("interleaved-batches");
 }
 
+// ---------------------------------------------------------------- buffer: many short rounds on persistent threads
+// A push that lands in the few instructions between the consumer releasing the lock and finishing consume(), and that
+// is the LAST push before the producers go quiet, must still be delivered by the next consume().  One such chance per
+// case is too few, so this property runs hundreds of tiny rounds on persistent threads; within a round the threads
+// share only the buffer, rounds are separated by a spin barrier.
+struct RoundsCase
+{
+  int producers = 2, rounds = 500, perRound = 1, yields = 0;
+  auto tie() { return std::tie(producers, rounds, perRound, yields); }
+};
+struct SpinBarrier
+{
+  std::atomic<int> count{0}, generation{0};
+  int parties;
+  explicit SpinBarrier(int n) : parties(n) {}
+  void wait()
+  {
+    int gen = generation.load();
+    if (count.fetch_add(1) + 1 == parties) {
+      count = 0;
+      generation.fetch_add(1);
+    } else
+      while (generation.load() == gen)
+        sched_yield();
+  }
+};
+template <class T>
+static void buffer_rounds(const RoundsCase &c, pbt::Ctx &ctx)
+{
+  const int np = std::max(1, c.producers % 9), rounds = std::max(1, c.rounds), per = std::max(1, c.perRound % 4), Y = c.yields % 2;
+  TransactionalBuffer<T> buf;
+  SpinBarrier startB(np + 1), endB(np + 1);
+  std::atomic<bool> failed{false};
+  std::string failure;
+  std::vector<std::thread> th;
+  for (int p = 0; p < np; ++p)
+    th.emplace_back([&, p] {
+      for (int r = 0; r < rounds; ++r) {
+        startB.wait();
+        for (int i = 0; i < per; ++i)
+          buf.push_back(Tag<T>::make((long long)p * 100000 + (long long)r * 4 + i, Y));
+        endB.wait();  // the producers are quiet from here until the next round
+        endB.wait();  // ... while the consumer takes its final look
+      }
+    });
+  long totalBatches = 0;
+  for (int r = 0; r < rounds; ++r) {
+    std::vector<long long> got;
+    startB.wait();
+    // consume concurrently with the pushes of this round
+    for (int k = 0; k < 4 + r % 5; ++k) {
+      auto b = buf.consume();
+      if (!b.empty())
+        ++totalBatches;
+      for (auto &e : b)
+        got.push_back(Tag<T>::back(e));
+    }
+    endB.wait();
+    // producers are done with this round: whatever was pushed must come out now
+    size_t sz = buf.size();
+    bool em = buf.empty();
+    auto last = buf.consume();
+    for (auto &e : last)
+      got.push_back(Tag<T>::back(e));
+    if (!failed.load()) {
+      std::ostringstream os;
+      if (last.size() != sz || em != (sz == 0))
+        os << "round " << r << ": size()=" << sz << " empty()=" << em << " but the following consume() returned " << last.size() << " elements (torn state)";
+      else if (got.size() != (size_t)np * per)
+        os << "round " << r << ": " << np * per << " elements pushed, " << got.size() << " consumed after the producers went quiet (element lost or duplicated)";
+      else {
+        std::vector<long long> next((size_t)np, 0);
+        for (long long tag : got) {
+          size_t p = (size_t)(tag / 100000);
+          long long seq = tag % 100000 - (long long)r * 4;
+          if (p >= (size_t)np || seq != next[p]) {
+            os << "round " << r << ": producer " << p << " item " << seq << " consumed out of order / twice";
+            break;
+          }
+          next[p]++;
+        }
+      }
+      if (!os.str().empty()) {
+        failure = os.str();
+        failed = true;
+      }
+    }
+    endB.wait();
+  }
+  for (auto &x : th)
+    x.join();
+  PBT_ASSERT_MSG(!failed.load(), failure);
+  ctx.nt(rounds >= 100 && totalBatches >= rounds / 4);
+  ctx.label("rounds-producers=" + std::to_string(np));
+}
+
 // ---------------------------------------------------------------- value
 struct ValCase
 {
@@ -273,6 +369,10 @@ static void register_properties()
   pbt::property<BufCase>("buffer_int", 150, bufc, buffer_case<long long>);
   pbt::property<BufCase>("buffer_string", 150, bufc, buffer_case<std::string>);
   pbt::property<BufCase>("buffer_yielding", 150, bufc, buffer_case<Yielding>);
+  auto rc_ = gen::build<RoundsCase>(gen::set(&RoundsCase::producers, pbt::range<int>(1, 8)), gen::set(&RoundsCase::rounds, pbt::range<int>(300, 3000)),
+      gen::set(&RoundsCase::perRound, pbt::range<int>(1, 3)), gen::set(&RoundsCase::yields, pbt::range<int>(0, 1)));
+  pbt::property<RoundsCase>("buffer_rounds_int", 25, rc_, buffer_rounds<long long>);
+  pbt::property<RoundsCase>("buffer_rounds_string", 25, rc_, buffer_rounds<std::string>);
   auto valc = gen::build<ValCase>(gen::set(&ValCase::assignments, pbt::range<int>(0, 300)), gen::set(&ValCase::producerPause, pbt::range<int>(0, 3)),
       gen::set(&ValCase::consumer, pbt::vec(pbt::range<int>(0, 2), 300)), gen::set(&ValCase::yields, pbt::range<int>(0, 2)));
   pbt::property<ValCase>("value_int", 150, valc, value_case<long long>);
